@@ -1,4 +1,5 @@
 import RawPanelVerif.Lemmas.MonoOps
+import RawPanelVerif.Lemmas.MonoTextXform
 import RawPanelVerif.Spec.TextSpec
 /-!
 # C20 — Text metrics bound the ink; rendering is translation- and scale-consistent
@@ -14,8 +15,16 @@ import RawPanelVerif.Spec.TextSpec
 * `scale_with_spacing_counterexample` — the recorded genuine finding C20.scale_with_spacing: with extra character
   spacing 1 at size 2 the rendering of "ab" is not the size-1 rendering enlarged (advance is `h·w + s`, not `h·(w+s)`).
 
-NOT YET PROVED (validated by the correspondence on every byte × font × mode and on random strings):
-`translation` and `scale_partial` (spacing = 0 ∨ h = 1 ∨ < 2 glyphs) as exact pixel equalities for unclipped renderings.
+* `translation` — on a blank canvas (any size), any font/mode/spacing/size, wrapping off, background = text colour
+  (how every caller in the repo draws text), any string without line feed: if no glyph is rejected by `DrawChar`'s
+  whole-glyph off-canvas test at either cursor (`NoEarly`, implied by "the text box lies on the canvas":
+  `noEarly_of_fits`), then the rendering at cursor `(cx+dx, cy+dy)` read at `(X+dx, Y+dy)` equals the rendering at
+  `(cx, cy)` read at `(X, Y)` — for every pair of on-canvas pixels.  `translation_fits` is the corollary for boxes
+  that fit.
+* `scale_zero_spacing` — with extra character spacing 0: the rendering at text size `(h, v)` read at
+  `(cx + h·I + p, cy + v·J + q)` (`0 ≤ p < h`, `0 ≤ q < v`) equals the size-`(1,1)` rendering read at `(cx + I, cy + J)`:
+  every source pixel becomes an `h × v` block.  With spacing ≠ 0 this is false of the code (the finding below), so
+  spacing = 0 is exactly the guard the code needs.
 -/
 namespace RawPanelVerif.C20
 open RawPanelVerif RawPanelVerif.Mono RawPanelVerif.Gen
@@ -43,6 +52,11 @@ theorem advSum_nonneg (t : TextSt) (h : 0 ≤ t.tsH) (s : List Nat) : 0 ≤ advS
     omega
 
 theorem advSum_cx (t : TextSt) (x : Int) (s : List Nat) : advSum { t with cx := x } s = advSum t s := by
+  induction s with
+  | nil => rfl
+  | cons ch rest ih => unfold advSum; rw [ih]; rfl
+
+theorem advSum_cxy (t : TextSt) (x y : Int) (s : List Nat) : advSum { t with cx := x, cy := y } s = advSum t s := by
   induction s with
   | nil => rfl
   | cons ch rest ih => unfold advSum; rw [ih]; rfl
@@ -235,6 +249,110 @@ theorem drawChar_index_in_range (n : Int) (prop : Bool) (ch i : Nat)
       · omega
   have := glyph_index_in_range n ch (charStart (tf n prop) ch + i) hr key
   omega
+
+/-! ## Translation and scale consistency (exact pixel equalities) -/
+
+theorem fp_pos (n : Int) : 1 ≤ (fontParams n).bbW ∧ 1 ≤ (fontParams n).bbH := by
+  rcases fontParams_cases n with h | h | h <;> rw [h] <;> decide +kernel
+
+/-- a text whose box `[cx, cx + advSum) × [cy, …)` starts on the canvas and ends inside its width is never rejected by
+`DrawChar`'s whole-glyph test -/
+theorem noEarly_of_fits (W H : Nat) (s : List Nat) (t : TextSt) (hh : 1 ≤ t.tsH) (hv : 1 ≤ t.tsV)
+    (hx : 0 ≤ t.cx) (hy : 0 ≤ t.cy) (hyH : t.cy ≤ H) (hfit : t.cx + advSum t s ≤ W) :
+    NoEarly (geo0 W H) t s := by
+  induction s generalizing t with
+  | nil => simp [NoEarly]
+  | cons ch rest ih =>
+    simp only [NoEarly]
+    have hadv : advSum t (ch :: rest) = ((charWidth t ch : Int) * t.tsH + t.spacing) + advSum t rest := rfl
+    have hnn := advSum_nonneg t (by omega) rest
+    have hcwh : (0 : Int) ≤ (charWidth t ch : Int) * t.tsH := Int.mul_nonneg (by omega) (by omega)
+    by_cases h13 : ch = 13
+    · simp only [h13, if_true]
+      exact ih t hh hv hx hy hyH (by rw [hadv] at hfit; omega)
+    · simp only [h13, if_false]
+      refine ⟨?_, ?_⟩
+      · unfold earlyRet getBWidth
+        have hg : (geo0 W H).bw = W := rfl
+        have hgW : (geo0 W H).W = W := rfl
+        have hgH : (geo0 W H).H = H := rfl
+        rw [hg, hgW, hgH]
+        have e1 : ((charWidth t ch : Int) - 1) * t.tsH = (charWidth t ch : Int) * t.tsH - t.tsH := by
+          rw [Int.sub_mul, Int.one_mul]
+        have ⟨p1, p2⟩ := fp_pos t.font
+        have b1 : (1 : Int) ≤ (t.fp.bbW : Int) * t.tsH := by
+          have : (1 : Int) * 1 ≤ (t.fp.bbW : Int) * t.tsH :=
+            Int.mul_le_mul (by unfold TextSt.fp; omega) hh (by omega) (by omega)
+          omega
+        have b2 : (1 : Int) ≤ (t.fp.bbH : Int) * t.tsV := by
+          have : (1 : Int) * 1 ≤ (t.fp.bbH : Int) * t.tsV :=
+            Int.mul_le_mul (by unfold TextSt.fp; omega) hv (by omega) (by omega)
+          omega
+        rw [e1]
+        split <;> omega
+      · apply ih
+        · exact hh
+        · exact hv
+        · show 0 ≤ t.cx + t.tsH * (charWidth t ch : Int) + t.spacing
+          rw [Int.mul_comm]; omega
+        · exact hy
+        · exact hyH
+        · rw [advSum_cx]
+          show t.cx + t.tsH * (charWidth t ch : Int) + t.spacing + advSum t rest ≤ W
+          rw [Int.mul_comm]; rw [hadv] at hfit; omega
+
+/-- **Translation consistency** (exact, every pixel pair on the canvas). -/
+theorem translation (W H : Nat) (t : TextSt) (s : List Nat) (hs : 10 ∉ s) (hw : t.wrap = false)
+    (hbg : t.tbg = t.tcol) (dx dy : Int)
+    (hne : NoEarly (geo0 W H) t s)
+    (hne' : NoEarly (geo0 W H) { t with cx := t.cx + dx, cy := t.cy + dy } s)
+    (X Y X' Y' : Nat) (hX : X < W) (hY : Y < H) (hX' : X' < W) (hY' : Y' < H)
+    (ex : (X' : Int) = X + dx) (ey : (Y' : Int) = Y + dy) :
+    getPx (renderText (newCanvas W H, { t with cx := t.cx + dx, cy := t.cy + dy }) s).1 X' Y' =
+    getPx (renderText (newCanvas W H, t) s).1 X Y := by
+  have a := renderText_blank W H t s hs hw hbg hne X Y hX hY
+  have b := renderText_blank W H { t with cx := t.cx + dx, cy := t.cy + dy } s hs hw hbg hne' X' Y' hX' hY'
+  have sh := textR0_shift W H s t dx dy X Y X' Y' hX hY hX' hY' ex ey
+  by_cases hr : textR0 (geo0 W H) t s X Y
+  · rw [a.1 hr, b.1 (sh.2 hr)]
+  · rw [a.2 hr, b.2 (fun h => hr (sh.1 h))]
+
+/-- `translation` for a text whose box lies on the canvas before and after the move -/
+theorem translation_fits (W H : Nat) (t : TextSt) (s : List Nat) (hs : 10 ∉ s) (hw : t.wrap = false)
+    (hbg : t.tbg = t.tcol) (dx dy : Int) (hh : 1 ≤ t.tsH) (hv : 1 ≤ t.tsV)
+    (hx : 0 ≤ t.cx) (hy : 0 ≤ t.cy) (hyH : t.cy ≤ H) (hfit : t.cx + advSum t s ≤ W)
+    (hx' : 0 ≤ t.cx + dx) (hy' : 0 ≤ t.cy + dy) (hyH' : t.cy + dy ≤ H) (hfit' : t.cx + dx + advSum t s ≤ W)
+    (X Y X' Y' : Nat) (hX : X < W) (hY : Y < H) (hX' : X' < W) (hY' : Y' < H)
+    (ex : (X' : Int) = X + dx) (ey : (Y' : Int) = Y + dy) :
+    getPx (renderText (newCanvas W H, { t with cx := t.cx + dx, cy := t.cy + dy }) s).1 X' Y' =
+    getPx (renderText (newCanvas W H, t) s).1 X Y := by
+  refine translation W H t s hs hw hbg dx dy (noEarly_of_fits W H s t hh hv hx hy hyH hfit) ?_ X Y X' Y' hX hY hX' hY' ex ey
+  refine noEarly_of_fits W H s _ hh hv hx' hy' hyH' ?_
+  rw [advSum_cxy]; exact hfit'
+
+/-- **Scale consistency for extra spacing 0** (exact): source pixel `(cx+I, cy+J)` of the size-1 rendering becomes the
+`h × v` block at `(cx + h·I, cy + v·J)` of the size-`(h,v)` rendering. -/
+theorem scale_zero_spacing (W H : Nat) (t : TextSt) (s : List Nat) (hs : 10 ∉ s) (hw : t.wrap = false)
+    (hbg : t.tbg = t.tcol) (hsp : t.spacing = 0) (h v cx cy : Int) (hh : 0 < h) (hv : 0 < v)
+    (hneh : NoEarly (geo0 W H) (atSize t h v cx cy) s) (hne1 : NoEarly (geo0 W H) (atSize t 1 1 cx cy) s)
+    (I J p q : Int) (Xh Yh X1 Y1 : Nat) (hXh : Xh < W) (hYh : Yh < H) (hX1 : X1 < W) (hY1 : Y1 < H)
+    (hp0 : 0 ≤ p) (hp : p < h) (hq0 : 0 ≤ q) (hq : q < v)
+    (eXh : (Xh : Int) = cx + h * I + p) (eYh : (Yh : Int) = cy + v * J + q)
+    (eX1 : (X1 : Int) = cx + I) (eY1 : (Y1 : Int) = cy + J) :
+    getPx (renderText (newCanvas W H, atSize t h v cx cy) s).1 Xh Yh =
+    getPx (renderText (newCanvas W H, atSize t 1 1 cx cy) s).1 X1 Y1 := by
+  have a := renderText_blank W H (atSize t h v cx cy) s hs hw hbg hneh Xh Yh hXh hYh
+  have b := renderText_blank W H (atSize t 1 1 cx cy) s hs hw hbg hne1 X1 Y1 hX1 hY1
+  have sc := textR0_scale W H s t hsp h v cx cy hh hv 0 I J p q Xh Yh X1 Y1 hXh hYh hX1 hY1 hp0 hp hq0 hq eXh eYh eX1 eY1
+  rw [Int.mul_zero, Int.add_zero] at sc
+  have tc : (atSize t h v cx cy).tcol = (atSize t 1 1 cx cy).tcol := rfl
+  by_cases hr : textR0 (geo0 W H) (atSize t 1 1 cx cy) s X1 Y1
+  · rw [b.1 hr, a.1 (sc.2 hr), tc]
+  · rw [b.2 hr, a.2 (fun h => hr (sc.1 h))]
+
+/-- non-vacuity: "AZ" in font 0 at (2,1) on a 64×32 canvas meets every hypothesis of both theorems -/
+example : NoEarly (geo0 64 32) (atSize {} 2 2 2 1) [65, 90] ∧ NoEarly (geo0 64 32) (atSize {} 1 1 2 1) [65, 90] := by
+  constructor <;> exact noEarly_of_fits 64 32 _ _ (by decide) (by decide) (by decide) (by decide) (by decide) (by decide +kernel)
 
 /-- The recorded genuine finding **C20.scale_with_spacing**: font 0, proportional, extra spacing 1, size 2, "ab":
 the rendering is not the size-1 rendering with every pixel enlarged 2×2 (the advance between glyphs is `h·w + s`,
